@@ -417,12 +417,19 @@ func RunConc(sc *ConcScenario, want Want) *ConcResult {
 		// initial model state of this phase
 		st0 := emptyState()
 		st0.Pre = prePresent
+		timed := cacheFam && hasTick(ph)
 		if slots != nil {
 			for k, ks := range state {
 				if s, ok := slots[k]; ok {
 					st0.V[s], st0.E[s] = ks.v, ks.e
+					if timed {
+						st0.EH[s] = ks.e
+					}
 				}
 			}
+		}
+		if timed {
+			res.probe("timed_lin_phases", 1)
 		}
 
 		// ---- linearizability ----
@@ -431,7 +438,7 @@ func RunConc(sc *ConcScenario, want Want) *ConcResult {
 			if slots == nil {
 				res.LinSkipped++
 			} else {
-				lr := checkLin(allRecs, st0, slots, cacheFam, now, def, sim.Seq, 4*time.Second, prefillPresent)
+				lr := checkLin(allRecs, st0, slots, cacheFam, now, def, sim.Seq, 4*time.Second, prefillPresent, timed)
 				switch {
 				case lr.Skipped != "":
 					res.LinSkipped++
@@ -454,7 +461,7 @@ func RunConc(sc *ConcScenario, want Want) *ConcResult {
 						noRange = append(noRange, r)
 					}
 					if hasRange {
-						lr2 := checkLin(noRange, st0, slots, cacheFam, now, def, sim.Seq, 4*time.Second, prefillPresent)
+						lr2 := checkLin(noRange, st0, slots, cacheFam, now, def, sim.Seq, 4*time.Second, prefillPresent, timed)
 						if lr2.Result == porcupine.Ok {
 							rule = "range-lin"
 						}
